@@ -201,11 +201,16 @@ PROPS = {
         "rule": "every generated value of every catalogue type and declaration encoded under catch_unwind, error variant compared with the "
                 "model; all 1 112 064 Unicode scalar values through the char codec",
         "trusted": MODEL_TRUST,
-        "partial": "panic-freedom of the composite encoder on all well-typed values is not a theorem (no typing judgement yet); "
-                   "iterators with an exact size hint above i32::MAX are not exercised",
-        "level_text": "Proof (partial): the error table (characters outside the BMP, lengths beyond 31/32 bits, transient constructors, dangling "
-                      "made-optional references) and top-level no-bytes-on-failure are theorems; every generated value runs under "
-                      "catch_unwind with the error variant compared to the model.",
+        "partial": "the one panic left to a well-typed value is the i32 string-id counter after 2^31-1 distinct deduplicated strings in one "
+                   "stream (more than 2 GiB of input; not exercised); iterators with an exact size hint above i32::MAX are not exercised",
+        "level_text": "Proof: for every environment within the documented limit of 255 versions per declaration, every type and every "
+                      "well-typed value (hasTy: the judgement the Rust type checker provides), with any string table, the encoder returns "
+                      "bytes or an error (encode_never_panics, induction over the value for the four mutually recursive encoder "
+                      "functions); the header's 'unreachable' branches are proved unreachable; the only remaining panic is the string-id "
+                      "counter overflow, which needs a table of 2^31-1 strings (overflow_needs_full_table). The error table (characters "
+                      "outside the BMP, lengths beyond 31/32 bits, transient constructors, dangling made-optional references) and "
+                      "top-level no-bytes-on-failure are theorems; every generated value runs under catch_unwind with the error variant "
+                      "compared to the model (a value the model calls ill-typed would show up as a disagreement).",
         "level_note": V0_NOTE,
     },
     "C09": {
